@@ -163,7 +163,20 @@ func Scan(rows Rows, db *DB, mode ScanMode) {
 			}
 			scanIntoMap(mapValue, values, columns)
 		}
-	case *[]map[string]interface{}:
+	case *[]map[string]interface{}, []map[string]interface{}:
+		var (
+			destPtr, isPtr = dest.(*[]map[string]interface{})
+			given          []map[string]interface{}
+			idx            int
+		)
+		if isPtr {
+			given = *destPtr
+		} else if given, _ = dest.([]map[string]interface{}); !update {
+			// a slice handed in by value can only be back-filled, not appended to
+			db.AddError(ErrInvalidValue)
+			return
+		}
+
 		columnTypes, _ := rows.ColumnTypes()
 		for initialized || rows.Next() {
 			prepareValues(values, db, columnTypes, columns)
@@ -172,9 +185,18 @@ func Scan(rows Rows, db *DB, mode ScanMode) {
 			db.RowsAffected++
 			db.AddError(rows.Scan(values...))
 
-			mapValue := map[string]interface{}{}
-			scanIntoMap(mapValue, values, columns)
-			*dest = append(*dest, mapValue)
+			if update && idx < len(given) {
+				// RETURNING of a create / update: back-fill the maps that were handed in, in order
+				if given[idx] == nil {
+					given[idx] = map[string]interface{}{}
+				}
+				scanIntoMap(given[idx], values, columns)
+			} else if isPtr {
+				mapValue := map[string]interface{}{}
+				scanIntoMap(mapValue, values, columns)
+				*destPtr = append(*destPtr, mapValue)
+			}
+			idx++
 		}
 	case *int, *int8, *int16, *int32, *int64,
 		*uint, *uint8, *uint16, *uint32, *uint64, *uintptr,
